@@ -130,7 +130,11 @@ def main(argv=None):
             600 if tier == "quick" else 5400
         )
         if hasattr(mod, "preload"):
-            mod.preload()
+            import contextlib
+            import io
+
+            with contextlib.redirect_stdout(io.StringIO()):  # import-time chatter of optional deps
+                mod.preload()
         shard_status = _run_shards(
             mod, shard_files, jobs, shard_timeout, getattr(mod, "CASE_TIMEOUT", 120)
         )
